@@ -14,11 +14,15 @@ import (
 // well except for one drawn deviation at a drawn phase, plugin-side writers,
 // and an API task that deletes and re-adds peers.
 type ChaosOpts struct {
-	MaxPeers   int
-	Duration   time.Duration
-	Churn      bool // DeletePeer / AddPeer during the run
-	Deviations bool
-	Hostile    func(c *Conn, phase int) bool // optional extra behaviour (C05); true = script ends
+	MaxPeers       int
+	Duration       time.Duration
+	Churn          bool // DeletePeer / AddPeer during the run
+	Deviations     bool
+	Hostile        func(c *Conn, phase int) bool // optional extra behaviour (C05); true = script ends
+	NoHandlerNotif bool
+	NoServe        bool // the caller starts Serve itself
+	AddInTasks     bool // every AddPeer runs in its own task (so its goroutines have a private ancestor)
+	OnlyReAdd      bool // the churn task only re-adds deleted peers
 }
 
 type ChaosPeer struct {
@@ -69,8 +73,11 @@ func (ch *Chaos) newIncarnation(cp *ChaosPeer) *PeerH {
 				w.Violate(w.Prop+"/callbacks/update-from-other-connection", "handler of the session on %v received an UPDATE the remote sent on connection c%d", s.Conn, id)
 			}
 		}
-		if w.Chance(1, 40, "handlernotif") {
+		if !ch.Opts.NoHandlerNotif && w.Chance(1, 40, "handlernotif") {
 			w.Fault("handler-notification")
+			if s.Conn != nil {
+				s.Conn.Tainted = true
+			}
 			return &corebgp.Notification{Code: 3, Subcode: 1}
 		}
 		return nil
@@ -105,7 +112,9 @@ func NewChaos(w *World, o ChaosOpts) *Chaos {
 		}
 		cp.Present = true
 	}
-	ch.E.Serve("10.0.0.5:179")
+	if !o.NoServe {
+		ch.E.Serve("10.0.0.5:179")
+	}
 	for _, cp := range ch.Peers {
 		cp := cp
 		cp.Site.DialPolicy = func(d *DialRec) int {
@@ -155,6 +164,9 @@ func NewChaos(w *World, o ChaosOpts) *Chaos {
 					return
 				}
 				cp := ch.Peers[w.Draw(len(ch.Peers), "churnpeer")]
+				if cp.Present && ch.Opts.OnlyReAdd {
+					continue
+				}
 				if cp.Present {
 					old := cp.Cur
 					err := ch.E.Srv.DeletePeer(old.Cfg.RemoteAddress)
@@ -166,7 +178,16 @@ func NewChaos(w *World, o ChaosOpts) *Chaos {
 					}
 				} else {
 					p := ch.newIncarnation(cp)
-					if err := ch.E.Add(p); err == nil {
+					var err error
+					if ch.Opts.AddInTasks {
+						call := w.CallAsync("AddPeer", func() error { return ch.E.Add(p) })
+						w.WaitUntil("addpeer", time.Minute, call.Done)
+						err = call.Err
+						p.AddTask = call.Task
+					} else {
+						err = ch.E.Add(p)
+					}
+					if err == nil {
 						cp.Present = true
 						w.Probe("re-addpeer")
 					}
@@ -195,6 +216,7 @@ var devNames = []string{"none", "fin", "rst", "silence", "cease", "proto-notific
 func (ch *Chaos) deviate(cp *ChaosPeer, c *Conn, dev int) {
 	w := ch.w
 	w.Fault("deviation:" + devNames[dev])
+	c.Tainted = true
 	switch dev {
 	case devFIN:
 		c.FIN()
